@@ -239,7 +239,7 @@ func TestC14(t *testing.T) {
 	}
 
 	// ---- Event.FormattedAs / Format: race-free last-writer-wins table ---------------------------------
-	nt := run.N(200, 10000)
+	nt := run.N(600, 20000)
 	for i := 0; i < nt && !run.Stop(); i++ {
 		cr := r.Fork()
 		ng, nops := cr.Range(2, 8), cr.Range(5, 40)
